@@ -801,13 +801,10 @@ impl<const MIN_ALIGN: usize> Bump<MIN_ALIGN> {
     /// How much headroom an arena has before it hits its allocation
     /// limit.
     fn allocation_limit_remaining(&self) -> Option<usize> {
-        self.allocation_limit.get().and_then(|allocation_limit| {
-            let allocated_bytes = self.allocated_bytes();
-            if allocated_bytes > allocation_limit {
-                None
-            } else {
-                Some(usize::abs_diff(allocation_limit, allocated_bytes))
-            }
+        self.allocation_limit.get().map(|allocation_limit| {
+            // Already at or above the limit (it can be lowered at any time):
+            // nothing remains, which is different from having no limit.
+            allocation_limit.saturating_sub(self.allocated_bytes())
         })
     }
 
